@@ -38,6 +38,9 @@ func tagsOf(ds ...*V) []string {
 		tops = append(tops, d.K)
 		// parsed type expressions: the name of the type, so that every kind of type is a group of its own
 		d.any(func(*V) bool { return false }, func(t *T) bool {
+			if t.K == "Rep" {
+				set["rep:"+string(t.S)] = true
+			}
 			if t.K == "Text" {
 				n := string(t.S)
 				if i := strings.IndexByte(n, '['); i >= 0 {
